@@ -121,7 +121,7 @@ class Impl:
                 os.remove(fp)
                 op["state"] = "missing"
                 return None
-            pos = op.get("pos", 0) % max(1, len(b))
+            pos = op.get("pos", 0) % max(1, len(b)) if op.get("pos", 0) >= 0 else len(b) - 1
             if kind == "flip":
                 b2 = b[:pos] + bytes([b[pos] ^ (1 << (op.get("bit", 0) % 8))]) + b[pos + 1 :]
             elif kind == "insert":
@@ -236,7 +236,11 @@ class Impl:
         elif k == "flatten":
             self.flat_n += 1
             dest = os.path.join(self.base, "_flat%d" % self.flat_n)
-            r = rt.run("flatten", [at, dest], now, cwd)
+            if op.get("dest_rel"):
+                # relative destination, invoked from the parent of the scenario root
+                r = rt.run("flatten", [at, "_flat%d" % self.flat_n], now, self.base)
+            else:
+                r = rt.run("flatten", [at, dest], now, cwd)
             op["_dest"] = dest
         else:
             raise ValueError(k)
